@@ -298,10 +298,22 @@ def gen_schedule(rng, n, counter=[0]):
             irr = IrrigationManagement(1, SMT=[int(x) for x in smt])
         else:
             irr = IrrigationManagement(method)
-        user_s = irr.Schedule.copy(deep=True) if isinstance(irr.Schedule, pd.DataFrame) else list(irr.Schedule)
-        user_smt = list(irr.SMT)
         full = (k % 8 == 0)
         set_mode(not full)
+        if method == 3 and rng.random() < 0.35:
+            # PREHISTORY: the same IrrigationManagement object was used before, over the same window, with ANOTHER schedule;
+            # the user then assigns the schedule compared here.  The binding must be a function of the object's current
+            # content, not of its past (a per-object cache keyed on the window would survive this).
+            try:
+                od = sorted(set(rng.randint(s - 2, e + 2) for _ in range(rng.randint(1, 4))))
+                irr.Schedule = pd.DataFrame({"Date": pd.DatetimeIndex([ts_of(d) for d in od]), "Depth": np.array([float(rng.choice([7, 12, 33])) for _ in od])})
+                m0 = make_model(s, e, good_weather(s, e), irrigation_management=irr); m0._initialize()
+            except Exception:
+                pass
+            irr.Schedule = sch
+            COVER["schedule:prehistory_same_object"] += 1
+        user_s = irr.Schedule.copy(deep=True) if isinstance(irr.Schedule, pd.DataFrame) else list(irr.Schedule)
+        user_smt = list(irr.SMT)
         extra = []
         try:
             m = make_model(s, e, good_weather(s, e), irrigation_management=irr)
@@ -374,6 +386,16 @@ def gen_gw(rng, n, counter=[0]):
         keep_d, keep_v = list(udates), list(uvals)
         full = (k % 8 == 0)
         set_mode(not full)
+        if present and rng.random() < 0.3:
+            # PREHISTORY: the same GroundWater object was used before over the same window with OTHER observations
+            try:
+                od = sorted(set(rng.randint(s - 3, e + 3) for _ in range(rng.randint(1, 3))))
+                gw.dates = [ds(d) for d in od]; gw.values = [rng.uniform(0.4, 5) for _ in od]
+                m0 = make_model(s, e, good_weather(s, e), groundwater=gw); m0._initialize()
+            except Exception:
+                pass
+            gw.dates = udates; gw.values = uvals
+            COVER["gw:prehistory_same_object"] += 1
         extra = []
         m = make_model(s, e, good_weather(s, e), groundwater=gw)
         raised = None
